@@ -393,7 +393,7 @@ def table_check(c, module, cfg, cmd, workers=8, tlc_timeout=900, harness_timeout
     r = tlc_must_pass(module, cfg, workers=workers, timeout=tlc_timeout, keep=True, jvm=jvm)
     c.add_tlc(cfg, r)
     try:
-        res = run_harness([cmd, r.dir, c.tier] + list(args), timeout=harness_timeout, race=race)
+        res = run_harness([cmd, r.dir, c.tier] + list(args), timeout=harness_timeout, race=race, crash_prop=c.pid)
     finally:
         cleanup(r)
     absorb(c, res)
